@@ -233,7 +233,7 @@ def handleSrvMsg (st : SrvSt) (c : Nat) (m : Msg) (ops : List Op) (resps : List 
     | .params red pers _ =>
       let supported := red == 1 && pers == 1
       let first := (isess.map (fun (s : ObsSess) => !s.setParams)).getD true
-      if (!supported || !first) && code = "open" && resps.contains .paramsOk && (red == 0 || pers == 0 || !first)
+      if (!supported || !first) && code = "open" && resps.contains .paramsOk
       then st.monfail "c09" s!"session parameters ({red},{pers}) accepted although unsupported or repeated" else st
     | _ => st
   if st.rs.diverged then st else
